@@ -25,6 +25,8 @@ def gen_history(rng, feats):
         i = next_id[0]
         next_id[0] += 1
         txt = G.lit_text(BIG[:rng.choice([4200, 5760])]) if big else G.rand_lit(rng, "TEXT", 0.15)
+        if big:
+            classes.add("large-cells")          # recorded finding C09-large-cells (the B+tree defect of C10)
         r = [G.lit_int(i), G.rand_lit(rng, "INT", 0.15), G.rand_lit(rng, "INT", 0.15), txt]
         if len(t.cols) == 5:
             r.append(G.rand_lit(rng, "BIGINT", 0.15))
